@@ -75,6 +75,8 @@ GENERAL_PDDL_KEYWORDS = {
     "scale-down",
     "increase",
     "decrease",
+    "assign",
+    "total-cost",
     "derived",
     "objects",
     "init",
@@ -347,11 +349,13 @@ class PDDLWriter:
         # those 2 maps are "simmetrical", meaning that "(otn[k] == v) implies (nto[v] == k)"
 
         # construct keywords set
+        # the PDDL3 and contingent operators are parsed by the readers wherever an expression is expected,
+        # whatever the requirements, so they can never be used as names
         self.pddl_keywords = set(GENERAL_PDDL_KEYWORDS)
+        self.pddl_keywords |= PDDL3_KEYWORDS
+        self.pddl_keywords |= CONTINGENT_PDDL_KEYWORDS
         if len(self.problem.processes) > 0 or len(self.problem.events) > 0:
             self.pddl_keywords |= PDDL_PLUS_KEYWORDS
-        if len(self.problem.trajectory_constraints) > 0:
-            self.pddl_keywords |= PDDL3_KEYWORDS
         if any(
             map(
                 lambda action: isinstance(action, up.model.action.DurativeAction),
@@ -359,8 +363,6 @@ class PDDLWriter:
             )
         ):
             self.pddl_keywords |= TEMPORAL_PDDL_KEYWORDS
-        if isinstance(self.problem, ContingentProblem):
-            self.pddl_keywords |= CONTINGENT_PDDL_KEYWORDS
 
     def _write_parameters(self, out, a):
         for ap in a.parameters:
